@@ -18,6 +18,7 @@ import (
 	"time"
 
 	"github.com/Yiling-J/theine-go/internal/clock"
+	"github.com/Yiling-J/theine-go/internal/xruntime"
 )
 
 type vrng struct{ s uint64 }
@@ -179,3 +180,6 @@ func vtick[K comparable, V any](s *Store[K, V]) {
 
 // clockOff returns to the wall clock (tests that use real goroutines and timers)
 func clockOff() { clock.VerifNow.Store(nil) }
+
+// xrandOff returns to the runtime's random source
+func xrandOff() { xruntime.VerifRand.Store(nil) }
